@@ -575,7 +575,7 @@ def py_tokenize(argv):
     return ref_items(CE, [list(a) for a in argv])
 
 
-def pt_expected(items):
+def pt_expected(items, adjacent_b=False):
     """what grammar `pt` (switches -a and -e-acute, optional OsString -b/--beta, OsString positionals)
     must answer on the reference items; returns ('ok', a, e, b, xs) or 'fail'"""
     if items == "amb":
@@ -601,6 +601,8 @@ def pt_expected(items):
                 e += 1
                 claimed[i] = True
             elif (k == "short" and nm == b"b") or (k == "long" and nm == b"beta"):
+                if adjacent_b and not it[2]:
+                    return "fail"  # grammar pj: `adjacent()` accepts only spellings where name and value share one item
                 if i + 1 < n and items[i + 1][0] in ("word", "argword") and not claimed[i + 1]:
                     b.append(bytes(items[i + 1][3]))
                     claimed[i] = claimed[i + 1] = True
@@ -640,10 +642,19 @@ def confirm_construct_cex(out, build):
     if not todo:
         return
     rp = Replayer(build["sets"]["none"]["replay"])
-    got = rp.run([("pt", [bytes.fromhex(h) for h in c["argv_hex"]], {}) for c in todo])
+    _confirm_with(rp, todo, "pt", False)
+    # a wrong adjacency flag is only observable through an `adjacent()` argument: grammar pj
+    again = [c for c in todo if c.get("reproduced") is False]
+    if again:
+        _confirm_with(rp, again, "pj", True)
+
+
+def _confirm_with(rp, todo, gname, adjacent_b):
+    got = rp.run([(gname, [bytes.fromhex(h) for h in c["argv_hex"]], {}) for c in todo])
     for c, (cls, pay) in zip(todo, got):
         argv = [bytes.fromhex(h) for h in c["argv_hex"]]
-        exp = pt_expected(py_tokenize(argv))
+        exp = pt_expected(py_tokenize(argv), adjacent_b)
+        c["confirm_grammar"] = gname
         c["native"] = [cls, pay]
         c["expected_from_reference"] = repr(exp)
         if any(b >= 0x80 for a in argv for b in a):
@@ -857,7 +868,7 @@ def report_text_results(out, results):
                 else:
                     out.inconc("NONREPRO " + what)
             elif c["kind"] == "construct-differs":
-                what = "State::construct on %r: %s; grammar pt natively: %s, reference expects %s" % (c["argv"], c["why"], c.get("native"), c.get("expected_from_reference"))
+                what = "State::construct on %r: %s; grammar %s natively: %s, reference expects %s" % (c["argv"], c["why"], c.get("confirm_grammar", "pt"), c.get("native"), c.get("expected_from_reference"))
                 if c.get("reproduced"):
                     out.violation("construct:" + ",".join(c["argv_hex"]), what, c)
                 elif c.get("reproduced") is None:
